@@ -380,6 +380,12 @@ Proof. exact file_ok_pm_ok. Qed.
 Theorem call_ok_pure_partial : forall call f, call_ok call f -> pure_fn call f /\ pure_err_fn call f.
 Proof. intros call f H. split; [apply call_ok_pure_fn, H|apply call_ok_pure_err_fn, H]. Qed.
 
+(* the intersection fragment with scoped variables can be checked stanza by stanza, match by match (`file_ok_any2`: every match of every stanza satisfies
+   `match_ok2` of C02 v2 AND `block_ok2` of C08 step 4); it gives the two hypotheses of strict_lazy_iso_any_order_scoped_partial *)
+Theorem file_ok_any2_intersection_partial : forall (okfn : ident -> Prop) (purev : ident -> bool) fl ms,
+  file_ok_any2 okfn purev fl (f_stanzas fl) ms -> file_ok2 okfn purev fl (f_stanzas fl) ms /\ Forall (pm_ok2 fl okfn) (lmatches_of ms).
+Proof. exact file_ok_any2_split. Qed.
+
 (* fragment v1: strict success => for every order of the blocks the lazy run succeeds from some fuel on, with a graph isomorphic to the strict one *)
 Theorem strict_lazy_iso_any_order_partial :
   forall (rx : Type) t fl supplied (regexes : list rx) find call (okfn : ident -> Prop),
@@ -564,6 +570,7 @@ Proof. exact strict_fail_lazy_fail_run_one_lemma. Qed.
 Example strict_lazy_iso_any_order_nonvacuous :
   (forall f, c8_okfn f -> call_ok c8_call f) /\ Permutation (lmatches_of ay_ms) ay_ms' /\ lmatches_of ay_ms <> ay_ms' /\
   (* ay2, scoped *)
+  file_ok_any2 c8_okfn (fun _ => false) ay2_file (f_stanzas ay2_file) ay_ms /\
   file_ok2 c8_okfn (fun _ => false) ay2_file (f_stanzas ay2_file) ay_ms /\ Forall (pm_ok2 ay2_file c8_okfn) (lmatches_of ay_ms) /\
   graph_of (run_strict k7_tree ay2_file config0 [[]] None ([] : list regex) rx_captures c8_call default_fuel ay_ms []) = Ok ay2_gs /\
   lgraph_of (run_lazy k7_tree ay2_file config0 [[]] None ([] : list regex) rx_captures c8_call default_fuel ay_ms' []) = Ok ay2_gl /\
@@ -581,7 +588,7 @@ Example strict_lazy_iso_any_order_nonvacuous :
                    | Ok (ls, _) => graph_iso r ay1_gs (l_graph ls) | OutOfFuel => True | Err _ | Panic _ => False end).
 Proof.
   split; [exact c8_call_ok|]. split; [exact ay_perm|]. split; [discriminate|].
-  split; [exact ay2_file_ok|]. split; [exact ay2_blocks_ok|]. split; [exact ay2_strict_graph|]. split; [exact ay2_lazy|]. split; [exact ay2_differ|].
+    split; [exact ay2_file_ok_any|]. split; [exact ay2_file_ok|]. split; [exact ay2_blocks_ok|]. split; [exact ay2_strict_graph|]. split; [exact ay2_lazy|]. split; [exact ay2_differ|].
   split; [exact ay2_iso|]. split; [reflexivity|]. split; [exact ay2_theorem_applies|].
   split; [exact ay1_file_ok|]. split; [exact ay1_strict|]. split; [exact ay1_lazy|]. split; [exact ay1_differ|]. split; [reflexivity|exact ay1_theorem_applies].
 Qed.
